@@ -4,6 +4,7 @@ import (
 	"encoding/json"
 	"fmt"
 	"os"
+	"path/filepath"
 	"strings"
 	"testing"
 	"time"
@@ -425,6 +426,24 @@ func TestC16_CLIViews(t *testing.T) {
 		os.WriteFile(dbp, gen.EmitYAML(c08Main), 0o644)
 		pool := []string{"list directory", "compress", "disk usage", "zzqx nothing"}
 		var log []string
+		// where the history file lives: a plain file (usual), or a symbolic link - absolute, or relative to
+		// the link's own directory (a bare sibling name, ./name, ../wtf/name) - while the searches run
+		// from another working directory; a relative link names the same file wherever the process stands
+		layout := rapid.SampledFrom([]string{"plain", "plain", "link-abs", "link-rel", "link-rel"}).Draw(t, "history-layout")
+		if layout != "plain" {
+			hd := filepath.Dir(h.History())
+			os.MkdirAll(hd, 0o755)
+			target := rapid.SampledFrom([]string{"history.real.json", "./history.real.json", "../wtf/history.real.json"}).Draw(t, "link-target")
+			if layout == "link-abs" {
+				target = filepath.Join(hd, "history.real.json")
+			}
+			if rapid.Bool().Draw(t, "target-exists") {
+				os.WriteFile(filepath.Join(hd, "history.real.json"), []byte(`{"entries":[],"max_size":100}`), 0o644)
+			}
+			if err := os.Symlink(target, h.History()); err != nil {
+				t.Fatalf("harness: %v", err)
+			}
+		}
 		for i := rapid.IntRange(1, 8).Draw(t, "searches"); i > 0; i-- {
 			q := rapid.SampledFrom(pool).Draw(t, "q")
 			if len(log) > 0 && rapid.IntRange(0, 3).Draw(t, "repeat") == 0 {
